@@ -307,7 +307,18 @@ func (ck *checker) execute(rec *Rec) *outcome {
 	o := &outcome{rec: rec, jsK: -1, natK: -1}
 	o.prog = Render(&rec.Scen)
 	native := !rec.Rejected
-	o.both = ck.pool.RunBoth(ck.c.Scratch, o.prog, gjs.Opts{}, 2*time.Minute, native, false)
+	// a run that times out or whose process could not be observed ("fail": exec
+	// errors, unclassifiable exit) is a tool problem on a busy machine: try again
+	flaky := func(b gjs.Both) bool {
+		return (b.BuildErr == nil && (b.JS.End == "timeout" || b.JS.End == "fail")) ||
+			(native && b.NativeErr == "" && (b.Native.End == "timeout" || b.Native.End == "fail"))
+	}
+	for attempt := 0; attempt < 3; attempt++ {
+		o.both = ck.pool.RunBoth(ck.c.Scratch, o.prog, gjs.Opts{}, 3*time.Minute, native, false)
+		if !flaky(o.both) {
+			break
+		}
+	}
 	if o.both.BuildErr == nil {
 		o.jsEv, o.jsOK = parseObs(o.both.JS)
 	}
@@ -647,8 +658,10 @@ func decide(c *core.Ctx, pool *gjs.Pool, recs []*Rec) {
 				return
 			}
 		}
-		if (o.both.BuildErr == nil && o.both.JS.End == "timeout") || (o.both.NativeErr == "" && !rec.Rejected && o.both.Native.End == "timeout") {
-			c.Infra(fmt.Errorf("scenario %d: a run timed out (js end=%s, native end=%s); not a verdict", rec.Sid, o.both.JS.End, o.both.Native.End))
+		if (o.both.BuildErr == nil && (o.both.JS.End == "timeout" || o.both.JS.End == "fail")) ||
+			(o.both.NativeErr == "" && !rec.Rejected && (o.both.Native.End == "timeout" || o.both.Native.End == "fail")) {
+			c.Infra(fmt.Errorf("scenario %d: a run timed out or could not be observed three times (js end=%s %s, native end=%s %s); not a verdict",
+				rec.Sid, o.both.JS.End, o.both.JS.Msg, o.both.Native.End, o.both.Native.Msg))
 			return
 		}
 		// --- rejected forms: decided by the documented behaviour only
